@@ -120,7 +120,7 @@ class DatetimeTimestampProvider(MorphingProvider):
                 raise TypeLoadError(Union[int, float], data)
             except ValueError:
                 raise ValueLoadError("Unexpected value", data)
-            except OverflowError:
+            except (OverflowError, OSError):
                 raise ValueLoadError(
                     "Timestamp is out of the range of supported values",
                     data,
@@ -170,7 +170,7 @@ class DateTimestampProvider(MorphingProvider):
                 raise TypeLoadError(Union[int, float], data)
             except ValueError:
                 raise ValueLoadError("Unexpected value", data)
-            except OverflowError:
+            except (OverflowError, OSError):
                 raise ValueLoadError(
                     "Timestamp is out of the range of supported values",
                     data,
@@ -181,7 +181,7 @@ class DateTimestampProvider(MorphingProvider):
                 return date.fromtimestamp(data)  # noqa: DTZ012
             except TypeError:
                 raise TypeLoadError(Union[int, float], data)
-            except OverflowError:
+            except (OverflowError, OSError):
                 raise ValueLoadError(
                     "Timestamp is out of the range of supported values",
                     data,
